@@ -1,9 +1,9 @@
 package props
 
 import (
-	"sort"
 	"fmt"
 	"math/rand"
+	"sort"
 	"strings"
 
 	"github.com/protobom/protobom/pkg/sbom"
